@@ -100,6 +100,7 @@ type World struct {
 	mu        sync.Mutex
 	pool      *mempool.SHashTxCache
 	poolUp    bool
+	poolShort bool
 	posts     []BlockPost
 	replyOK   bool
 	replyMsg  string
@@ -198,6 +199,14 @@ func (w *World) PoolReset() {
 	defer w.mu.Unlock()
 	w.pool = mempool.NewSHashTxCache(1 << 20)
 	w.poolUp = true
+	w.poolShort = false
+}
+
+// PoolShort makes the mempool module answer EventTxListByHash with one entry fewer than hashes were asked for.
+func (w *World) PoolShort(short bool) {
+	w.mu.Lock()
+	defer w.mu.Unlock()
+	w.poolShort = short
 }
 
 // PoolPush indexes tx under the short hash of hash (real SHashTxCache: first entry wins).
@@ -259,6 +268,9 @@ func (w *World) handleMempool(c queue.Client, m *queue.Message) {
 		for _, sHash := range req.GetHashes() {
 			tx := w.pool.GetSHashTxCache(sHash)
 			reply.Txs = append(reply.Txs, tx)
+		}
+		if w.poolShort && len(reply.Txs) > 0 {
+			reply.Txs = reply.Txs[:len(reply.Txs)-1]
 		}
 		m.Reply(c.NewMessage("p2p", types.EventTxListByHash, &reply))
 	case types.EventTx:
